@@ -15,7 +15,7 @@ variable {B V : Type}
 
 /-- all decidable well-formedness conditions on the extracted tables. -/
 def TablesOK (T : Tables) : Bool :=
-  WF T && WritesAll T && Topo T && RAcyclic T && Frame T && BorrowOK T
+  WF T && WritesAll T && Topo T && RAcyclic T && Frame T && BorrowOK T && LiveLoop T
 
 /-! ## Obligations on the current source (`decide` on the regenerated tables) -/
 
@@ -32,6 +32,9 @@ theorem C10_gen_racyclic : RAcyclic Gen.Bsp.tables = true := by decide +kernel
 theorem C10_gen_frame : Frame Gen.Bsp.tables = true := by decide +kernel
 /-- the `model` keys `bmodels` takes out of the entities are put back by its writer, before the entity writer runs. -/
 theorem C10_gen_borrow : BorrowOK Gen.Bsp.tables = true := by decide +kernel
+/-- the rebuild loop of `BSP.save` walks `LUMP_REBUILD_ORDER` and pops from the live cache, so a view a
+writer parses during save is still written back when its turn comes. -/
+theorem C10_gen_live_loop : LiveLoop Gen.Bsp.tables = true := by decide +kernel
 /-- a reader that stores to a raw lump (`texinfo` empties TEXDATA itself) only does so to a lump its view empties anyway. -/
 theorem C10_gen_reader_stores :
     Gen.Bsp.readerStores.all (fun p => (Gen.Bsp.tables.view p.1).clears.contains p.2) = true := by decide +kernel
@@ -46,10 +49,12 @@ theorem C10_gen_write_order :
     Gen.Bsp.tables.writeOrder.all (· < 64) = true ∧ Gen.Bsp.tables.writeOrder.getLast? = some 40 := by decide +kernel
 
 theorem C10_gen_ok : TablesOK Gen.Bsp.tables = true := by
-  simp [TablesOK, C10_gen_wf, C10_gen_writes_all, C10_gen_topo, C10_gen_racyclic, C10_gen_frame, C10_gen_borrow]
+  simp [TablesOK, C10_gen_wf, C10_gen_writes_all, C10_gen_topo, C10_gen_racyclic, C10_gen_frame, C10_gen_borrow,
+    C10_gen_live_loop]
 
 private theorem ok_parts {T : Tables} (h : TablesOK T = true) :
-    WF T = true ∧ WritesAll T = true ∧ Topo T = true ∧ RAcyclic T = true ∧ Frame T = true ∧ BorrowOK T = true := by
+    WF T = true ∧ WritesAll T = true ∧ Topo T = true ∧ RAcyclic T = true ∧ Frame T = true ∧ BorrowOK T = true ∧
+    LiveLoop T = true := by
   simpa [TablesOK, and_assoc] using h
 
 /-! ## The property, for all tables and all read sequences -/
@@ -60,8 +65,8 @@ theorem C10_flush (T : Tables) (h : TablesOK T = true) (C : Codec B V) (raw₀ :
     (xs : List Nat) (hxs : ∀ u ∈ xs, u < T.n) :
     (∀ v, (save T C (accesses T C xs (init raw₀))).parsed v = none) ∧
     (∀ l, (save T C (accesses T C xs (init raw₀))).clr l = false) := by
-  obtain ⟨h1, h2, h3, _, _, h6⟩ := ok_parts h
-  obtain ⟨a, b, _, _⟩ := flush_all T C h1 h2 h3 h6 raw₀ xs hxs
+  obtain ⟨h1, h2, h3, _, _, h6, h7⟩ := ok_parts h
+  obtain ⟨a, b, _, _⟩ := flush_all T C h1 h2 h3 h6 h7 raw₀ xs hxs
   exact ⟨a, b⟩
 
 /-- **borrowed keys.** The keys a reader removes from another view's objects (`bmodels` pops `model`
@@ -70,8 +75,8 @@ theorem C10_borrow (T : Tables) (h : TablesOK T = true) (C : Codec B V) (raw₀ 
     (xs : List Nat) (hxs : ∀ u ∈ xs, u < T.n) :
     (save T C (accesses T C xs (init raw₀))).lost = [] ∧
     (save T C (accesses T C xs (init raw₀))).pending = [] := by
-  obtain ⟨h1, h2, h3, _, _, h6⟩ := ok_parts h
-  obtain ⟨_, _, c, d⟩ := flush_all T C h1 h2 h3 h6 raw₀ xs hxs
+  obtain ⟨h1, h2, h3, _, _, h6, h7⟩ := ok_parts h
+  obtain ⟨_, _, c, d⟩ := flush_all T C h1 h2 h3 h6 h7 raw₀ xs hxs
   exact ⟨c, d⟩
 
 /-- **content.** If the codecs satisfy the round-trip laws and `E` is the parse of the original
@@ -81,20 +86,24 @@ theorem C10_content (T : Tables) (h : TablesOK T = true) (C : Codec B V) (L : La
     (raw₀ : Nat → B) (E : Nat → V) (hE : IsEnv T C raw₀ E) (xs : List Nat) (hxs : ∀ u ∈ xs, u < T.n) :
     IsEnv T C (save T C (accesses T C xs (init raw₀))).raw E ∧
     (∀ l, T.owned l = false → (save T C (accesses T C xs (init raw₀))).raw l = raw₀ l) := by
-  obtain ⟨h1, h2, h3, h4, h5, h6⟩ := ok_parts h
-  obtain ⟨_, hb, hc⟩ := content_all T C h1 h3 h5 h4 L raw₀ E hE xs hxs
-  obtain ⟨hnone, _⟩ := flush_all T C h1 h2 h3 h6 raw₀ xs hxs
+  obtain ⟨h1, h2, h3, h4, h5, h6, h7⟩ := ok_parts h
+  obtain ⟨_, hb, hc⟩ := content_all T C h1 h3 h5 h4 h7 L raw₀ E hE xs hxs
+  obtain ⟨hnone, _⟩ := flush_all T C h1 h2 h3 h6 h7 raw₀ xs hxs
   exact ⟨fun v hv => hb v hv (by omega) (hnone v), hc⟩
 
 /-- **no access.** Saving without having read any view changes no lump at all (for any tables). -/
 theorem C10_noaccess (T : Tables) (C : Codec B V) (raw₀ : Nat → B) :
     save T C (accesses T C [] (init raw₀)) = init raw₀ := by
-  show T.order.foldl (saveStep T C) (init raw₀) = init raw₀
-  refine foldl_inv (fun s => s = init raw₀) _ _ _ rfl (fun a l _ ha => ?_)
-  subst ha
-  cases hv : T.viewOfMain l with
-  | none => exact saveStep_none T C _ l hv
-  | some v => exact saveStep_skip T C _ l v hv rfl
+  have key : ∀ (ls : List Nat), ls.foldl (saveStep T C) (init raw₀) = init raw₀ := by
+    intro ls
+    refine foldl_inv (fun s => s = init raw₀) _ _ _ rfl (fun a l _ ha => ?_)
+    subst ha
+    cases hv : T.viewOfMain l with
+    | none => exact saveStep_none T C _ l hv
+    | some v => exact saveStep_skip T C _ l v hv rfl
+  show save T C (init raw₀) = init raw₀
+  unfold save
+  split <;> exact key _
 
 /-- **repeated cycles.** Re-opening the saved lumps, reading any (other) views and saving again keeps
 the same parse `E`, keeps the view-less lumps byte-identical, and a second save without reads
@@ -120,8 +129,8 @@ theorem C10_idem_bytes (T : Tables) (h : TablesOK T = true) (C : Codec B V) (L :
     (raw₀ : Nat → B) (E : Nat → V) (hE : IsEnv T C raw₀ E) (xs : List Nat) (hxs : ∀ u ∈ xs, u < T.n) :
     (save T C (accesses T C xs (init (V := V) (save T C (accesses T C xs (init raw₀))).raw))).raw
       = (save T C (accesses T C xs (init raw₀))).raw := by
-  obtain ⟨h1, h2, h3, h4, h5, h6⟩ := ok_parts h
-  exact funext (idem_bytes T C h1 h2 h3 h5 h4 h6 L hcan raw₀ E hE xs hxs)
+  obtain ⟨h1, h2, h3, h4, h5, h6, h7⟩ := ok_parts h
+  exact funext (idem_bytes T C h1 h2 h3 h5 h4 h6 h7 L hcan raw₀ E hE xs hxs)
 
 /-- The theorems at the tables of the current source. -/
 theorem C10_flush_current (C : Codec B V) (raw₀ : Nat → B) (xs : List Nat) (hxs : ∀ u ∈ xs, u < 21) :
@@ -172,6 +181,26 @@ the cache, re-parsed from the emptied lump (value `0` = `b''` instead of `136`).
 theorem C10_flush_needs_topo :
     (save tablesBeforeFix (mainCodec tablesBeforeFix)
       (accesses tablesBeforeFix (mainCodec tablesBeforeFix) [9] (init fun l => l + 100))).parsed 9 = some 0 := by
+  decide +kernel
+
+/-- The tables of the current source with the reader of `orig_faces` (16) restricted to the views it really
+evaluates (it never resolves texinfo; its writer does), and the rebuild loop replaced by: list the cached
+views first, then walk that list. -/
+def tablesSnapshotLoop : Tables :=
+  { Gen.Bsp.tables with
+    snapshot := true
+    views := (List.range Gen.Bsp.tables.n).map fun v =>
+      if v = 16 then { Gen.Bsp.tables.view 16 with rdeps := [14, 13, 18] } else Gen.Bsp.tables.view v }
+
+/-- `LiveLoop` is needed: with the snapshot loop, reading only `orig_faces` and saving leaves `texinfo` (3)
+— parsed by the `orig_faces` writer during save — in the cache with its lump TEXINFO (6) emptied; with the
+live loop (same tables otherwise) it is rebuilt. -/
+theorem C10_flush_needs_live_loop :
+    (save tablesSnapshotLoop (mainCodec tablesSnapshotLoop)
+      (accesses tablesSnapshotLoop (mainCodec tablesSnapshotLoop) [16] (init fun l => l + 100))).clr 6 = true ∧
+    (save { tablesSnapshotLoop with snapshot := false } (mainCodec tablesSnapshotLoop)
+      (accesses { tablesSnapshotLoop with snapshot := false } (mainCodec tablesSnapshotLoop) [16]
+        (init fun l => l + 100))).clr 6 = false := by
   decide +kernel
 
 /-! ## The byte layer (`Model/C10Bytes.lean`): header, lump table, revision, bodies, game-lump section -/
